@@ -410,6 +410,20 @@ def check_endian(cls, t, lens, args):
     return True
 
 
+def check_count_guard(cls, k, bs, be):
+    """C06 (element counts are bounded): the k-th array counter of the message type, decoded from arbitrary bytes,
+    is either refused with ProphyError or lies in [0, 65536] - whatever follows in the input"""
+    import prophy
+    sizers = [d.type for d in cls._descriptor if d.type.__name__ == 'container_len']
+    t = sizers[k]
+    data = symbytes(bs)
+    try:
+        v, size = t._decode(data, 0, '>' if be else '<')
+    except prophy.ProphyError:
+        return True
+    return 0 <= v <= 65536 and size == len(bs)
+
+
 def check_decode_total(cls, t, bs, be, twin=False, greedy=False):
     """C06: decode of arbitrary bytes returns or raises ProphyError; accepted input -> encodes, and is a fixpoint;
     element counts bounded by the input length"""
